@@ -4,6 +4,7 @@
 mod coqfmt;
 mod prng;
 mod udp_swarm;
+mod http_swarm;
 
 use std::collections::HashMap;
 
@@ -57,6 +58,7 @@ fn main() {
     let args = parse_args(&argv[2..]);
     match argv[1].as_str() {
         "udp-swarm" => udp_swarm::run(&args),
+        "http-swarm" => http_swarm::run(&args),
         other => {
             eprintln!("unknown suite {}", other);
             std::process::exit(2);
